@@ -1,4 +1,5 @@
 CONSTANTS
+  Lookalikes = {"none", "skip_serializing", "skip_deserializing", "skip_serializing_if"}
   Twins = {"none", "sibling"}
   Modes = {"single", "multi"}
   Kinds = {"struct", "newtype_struct", "unit_struct", "unit_enum", "tagged_enum", "alias", "const"}
